@@ -5,7 +5,8 @@
 (*  The tables are finite: equality with the documented ones by evaluation.*)
 (* ====================================================================== *)
 From Coq Require Import String Ascii List ZArith QArith Bool Arith Lia.
-From TK Require Import Cli_Model Cli_Spec Cli_Proof_Decide Cli_Proof_Main Cli_Proof_Exit Cli.
+From TK Require Import Cli_Model Cli_Spec Cli_Argv_Model Cli_Argv_Spec Cli_Proof_Decide Cli_Proof_Main Cli_Proof_Exit
+  Cli_Proof_Argv Cli.
 Import ListNotations.
 Local Close Scope Q_scope.
 Local Open Scope string_scope.
@@ -130,4 +131,22 @@ Proof.
   intros a Hok Hh Hb Hs.
   destruct (gen_outcomes a) as [H|H]; [|exact H].
   exfalso. apply gen_exit_iff in H. destruct H as [H|[H|[H|H]]]; congruence || tauto.
+Qed.
+
+(* from the real argv: scanning the canonical spelling of an abstract command line and interpreting the
+   generated tables is the documented function of that command line *)
+Theorem gen_argv_concretize : forall rd a, Forall (wf_arg rd gen_options) a ->
+  cli_decide_argv rd gen_options gen_tables (concretize a) = spec_decide a.
+Proof.
+  intros rd a H. rewrite (decide_argv_concretize rd gen_options gen_tables a H). apply gen_decide_spec.
+Qed.
+
+(* ... and for EVERY argv the generated tables behind cxxopts' scanner are the documented behaviour *)
+Theorem gen_argv_spec : forall rd argv,
+  cli_decide_argv rd gen_options gen_tables argv = spec_argv rd argv.
+Proof.
+  intros rd argv. unfold cli_decide_argv, spec_argv.
+  assert (E : gen_options = doc_options) by (vm_compute; reflexivity). rewrite E.
+  destruct (scan rd doc_options argv []); [apply gen_decide_spec|].
+  rewrite gen_tables_doc. reflexivity.
 Qed.
